@@ -13,6 +13,7 @@ import (
 	"sort"
 	"strings"
 	"sync"
+	"sync/atomic"
 	"testing"
 	"testing/synctest"
 	"time"
@@ -85,6 +86,35 @@ type fakeEnv struct {
 	log    *eventLog
 	got    []byte
 	took   string // terminal actually taken: answered:<code> | connerr | ctx
+	body   *trackedBody
+}
+
+// trackedBody is the response body handed to the library; it records whether it was closed (an
+// unclosed body pins the connection and the transport's goroutines past the end of the upload)
+type trackedBody struct {
+	io.Reader
+	closed atomic.Bool
+}
+
+func (b *trackedBody) Close() error { b.closed.Store(true); return nil }
+
+// terminalResponse maps "403", "403/json", "403/xml", "403/none" to (code, content type, body)
+func terminalResponse(term string) (code int, ct, body string) {
+	fmt.Sscan(term, &code)
+	ct, body = "text/plain", ""
+	if i := strings.IndexByte(term, '/'); i >= 0 {
+		switch term[i+1:] {
+		case "json":
+			ct, body = "application/json", `{"error":"quota"}`
+		case "xml":
+			ct, body = "application/xml; charset=utf-8", `<?xml version="1.0"?><D:error xmlns:D="DAV:"><D:quota-not-exceeded/></D:error>`
+		case "none":
+			ct, body = "", "no content type"
+		case "text":
+			ct, body = "text/plain; charset=utf-8", "denied"
+		}
+	}
+	return
 }
 
 func (e *fakeEnv) finish(req *http.Request, took string) {
@@ -163,11 +193,15 @@ func (e *fakeEnv) Do(req *http.Request) (*http.Response, error) {
 		e.finish(req, "ctx")
 		return nil, ctx.Err()
 	}
-	var code int
-	fmt.Sscan(e.script.Terminal, &code)
+	code, ct, body := terminalResponse(e.script.Terminal)
 	e.finish(req, fmt.Sprintf("answered:%d", code))
+	e.body = &trackedBody{Reader: strings.NewReader(body)}
+	hdr := http.Header{}
+	if ct != "" {
+		hdr.Set("Content-Type", ct)
+	}
 	return &http.Response{StatusCode: code, Status: fmt.Sprintf("%d %s", code, http.StatusText(code)), Proto: "HTTP/1.1", ProtoMajor: 1, ProtoMinor: 1,
-		Header: http.Header{"Content-Type": {"text/plain"}}, Body: io.NopCloser(strings.NewReader("")), Request: req}, nil
+		Header: hdr, Body: e.body, ContentLength: int64(len(body)), Request: req}, nil
 }
 
 type uploadObs struct {
@@ -295,6 +329,11 @@ func judgeUpload(h uploadHarness, s *sched.Sched, o *uploadObs) string {
 			return fmt.Sprintf("close-does-not-report-cancellation: %v", o.CloseErr)
 		}
 	}
+	// (3b) the response body was released: an unclosed body keeps the connection and the
+	// transport's goroutines alive after the upload has ended
+	if o.Env.body != nil && !o.Env.body.closed.Load() {
+		return "response-body-never-closed: status " + strings.TrimPrefix(took, "answered:")
+	}
 	// (4) writes
 	written := 0
 	for i, w := range o.Writes {
@@ -329,7 +368,7 @@ func uploadHarnesses(full bool) []uploadHarness {
 	var out []uploadHarness
 	for _, ch := range chunkings {
 		for _, rs := range readSeqs {
-			for _, term := range []string{"201", "204", "200", "403", "500", "connerr", "stall"} {
+			for _, term := range []string{"201", "204", "200", "403", "500", "connerr", "stall", "403/json", "507/xml", "403/none", "500/text", "200/json"} {
 				for _, can := range []bool{false, true} {
 					if term == "stall" && !can {
 						continue // without a canceller a stalled server blocks for ever by construction
@@ -357,6 +396,9 @@ func (h concHarness) String() string { return fmt.Sprintf("%s %v", h.Kind, h.Scr
 
 type sharedSystem struct {
 	local string // root directory when the file server runs over LocalFileSystem
+	base  string // path prefix the CalDAV/CardDAV handler is mounted under ("" or "/dav")
+	cfg   func() string // the handler's configuration fields as they are now
+	cfg0  string        // ... as they were when the handler was built
 	kind  string
 	fs    *harness.MemFS
 	wd    *webdav.Client
@@ -396,7 +438,9 @@ func newSystem(kind string, nThreads int, s *sched.Sched) *sharedSystem {
 			}
 		}
 		hfs := &harness.HookFS{Inner: webdav.LocalFileSystem(dir), Hook: hook("fs")}
-		w := &harness.Wire{Handler: &webdav.Handler{FileSystem: hfs}, Hook: hook("wire")}
+		wh := &webdav.Handler{FileSystem: hfs}
+		sys.cfg = func() string { return fmt.Sprintf("FileSystem==configured:%v", wh.FileSystem == webdav.FileSystem(hfs)) }
+		w := &harness.Wire{Handler: wh, Hook: hook("wire")}
 		sys.local = dir
 		sys.kind = "webdav"
 		sys.wd, _ = webdav.NewClient(w.Client(), "http://h/")
@@ -411,33 +455,101 @@ func newSystem(kind string, nThreads int, s *sched.Sched) *sharedSystem {
 			fs.Add(webdav.FileInfo{Path: d + "/sub/g", Size: 1, ModTime: mt, ETag: "g"}, "g")
 		}
 		fs.Hook = hook("fs")
-		w := &harness.Wire{Handler: &webdav.Handler{FileSystem: fs}, Hook: hook("wire")}
+		wh := &webdav.Handler{FileSystem: fs}
+		sys.cfg = func() string { return fmt.Sprintf("FileSystem==configured:%v", wh.FileSystem == webdav.FileSystem(fs)) }
+		w := &harness.Wire{Handler: wh, Hook: hook("wire")}
 		sys.fs = fs
 		sys.wd, _ = webdav.NewClient(w.Client(), "http://h/")
-	case "caldav":
-		b := &harness.CalBackend{Principal: "/u/", HomeSet: "/u/c/"}
+	case "caldav", "caldav-prefix":
+		prefix := ""
+		if kind == "caldav-prefix" {
+			// mounted under a prefix, configured with a trailing slash (legal: the handler trims it)
+			sys.base, prefix, sys.kind = "/dav", "/dav/", "caldav"
+		}
+		b := &harness.CalBackend{Principal: sys.base + "/u/", HomeSet: sys.base + "/u/c/"}
 		for i := 1; i <= nThreads; i++ {
-			c := fmt.Sprintf("/u/c/k%d/", i)
+			c := fmt.Sprintf("%s/u/c/k%d/", sys.base, i)
 			b.Calendars = append(b.Calendars, caldav.Calendar{Path: c, Name: fmt.Sprintf("cal%d", i)})
 			b.Objects = append(b.Objects, caldav.CalendarObject{Path: c + "o.ics", ETag: fmt.Sprintf("e%d", i), ModTime: mt, Data: harness.SampleCalendar(fmt.Sprint(i), fmt.Sprintf("summary%d", i))})
 		}
 		b.Hook = hook("be")
-		w := &harness.Wire{Handler: &caldav.Handler{Backend: b}, Hook: hook("wire")}
+		ch := &caldav.Handler{Backend: b, Prefix: prefix}
+		sys.cfg = func() string { return fmt.Sprintf("Prefix=%q Backend==configured:%v", ch.Prefix, ch.Backend == caldav.Backend(b)) }
+		w := &harness.Wire{Handler: ch, Hook: hook("wire")}
 		sys.calB = b
 		sys.cal, _ = caldav.NewClient(w.Client(), "http://h/")
-	case "carddav":
-		b := &harness.CardBackend{Principal: "/u/", HomeSet: "/u/c/"}
+	case "carddav", "carddav-prefix":
+		prefix := ""
+		if kind == "carddav-prefix" {
+			sys.base, prefix, sys.kind = "/dav", "/dav/", "carddav"
+		}
+		b := &harness.CardBackend{Principal: sys.base + "/u/", HomeSet: sys.base + "/u/c/"}
 		for i := 1; i <= nThreads; i++ {
-			c := fmt.Sprintf("/u/c/k%d/", i)
+			c := fmt.Sprintf("%s/u/c/k%d/", sys.base, i)
 			b.Books = append(b.Books, carddav.AddressBook{Path: c, Name: fmt.Sprintf("book%d", i)})
 			b.Objects = append(b.Objects, carddav.AddressObject{Path: c + "o.vcf", ETag: fmt.Sprintf("e%d", i), ModTime: mt, Card: harness.SampleCard(fmt.Sprintf("name%d", i))})
 		}
 		b.Hook = hook("be")
-		w := &harness.Wire{Handler: &carddav.Handler{Backend: b}, Hook: hook("wire")}
+		ch := &carddav.Handler{Backend: b, Prefix: prefix}
+		sys.cfg = func() string { return fmt.Sprintf("Prefix=%q Backend==configured:%v", ch.Prefix, ch.Backend == carddav.Backend(b)) }
+		w := &harness.Wire{Handler: ch, Hook: hook("wire")}
 		sys.cardB = b
 		sys.card, _ = carddav.NewClient(w.Client(), "http://h/")
 	}
+	if sys.cfg != nil {
+		sys.cfg0 = sys.cfg()
+	}
 	return sys
+}
+
+// reverseObservations runs the reverse-order reference passes in a fresh process of this binary.
+func reverseObservations() (map[string]string, error) {
+	cmd := exec.Command(os.Args[0], "-test.run", "^TestC18$", "-test.timeout", "0")
+	f, err := os.CreateTemp("", "c18rev")
+	if err != nil {
+		return nil, err
+	}
+	f.Close()
+	defer os.Remove(f.Name())
+	cmd.Env = append(os.Environ(), "C18_SEQ_CHILD="+f.Name(), "C18_MERGE=", "C18_SHARD=", "C18_REPLAY=")
+	if out, err := cmd.CombinedOutput(); err != nil {
+		return nil, fmt.Errorf("%v: %s", err, out)
+	}
+	b, err := os.ReadFile(f.Name())
+	if err != nil {
+		return nil, err
+	}
+	rev := map[string]string{}
+	return rev, jsonUnmarshal(b, &rev)
+}
+
+// clientSoloObservations performs every client operation of every kind once, each on a brand-new
+// system (client, wire, handler, backend), in forward or reverse order; the key is "client:<kind>/<op>".
+func clientSoloObservations(reverse bool) map[string]string {
+	type ko struct{ kind, op string }
+	var order []ko
+	for _, kind := range []string{"webdav", "webdav-local", "caldav", "carddav", "caldav-prefix", "carddav-prefix"} {
+		ops := webdavOps
+		if !strings.HasPrefix(kind, "webdav") {
+			ops = []string{"find", "multiget", "query", "get", "put"}
+		}
+		for _, op := range ops {
+			order = append(order, ko{kind, op})
+		}
+	}
+	if reverse {
+		for a, b := 0, len(order)-1; a < b; a, b = a+1, b-1 {
+			order[a], order[b] = order[b], order[a]
+		}
+	}
+	out := map[string]string{}
+	for _, o := range order {
+		sys := newSystem(o.kind, 1, nil)
+		res := sys.runOp(withTID(context.Background(), 1), nil, 1, o.op)
+		out["client:"+o.kind+"/"+o.op] = res + " | " + sys.stateOf(1)
+		sys.close()
+	}
+	return out
 }
 
 func errStr(err error) string {
@@ -514,10 +626,10 @@ func (sys *sharedSystem) runOp(ctx context.Context, s *sched.Sched, tid int, op 
 			return errStr(sys.wd.RemoveAll(ctx, d+"/sub"))
 		}
 	case "caldav":
-		c := fmt.Sprintf("/u/c/k%d/", tid)
+		c := fmt.Sprintf("%s/u/c/k%d/", sys.base, tid)
 		switch op {
 		case "find":
-			l, err := sys.cal.FindCalendars(ctx, "/u/c/")
+			l, err := sys.cal.FindCalendars(ctx, sys.base+"/u/c/")
 			var ps []string
 			for _, x := range l {
 				ps = append(ps, x.Path+"="+x.Name)
@@ -543,10 +655,10 @@ func (sys *sharedSystem) runOp(ctx context.Context, s *sched.Sched, tid int, op 
 			return o.Path + " " + o.ETag
 		}
 	case "carddav":
-		c := fmt.Sprintf("/u/c/k%d/", tid)
+		c := fmt.Sprintf("%s/u/c/k%d/", sys.base, tid)
 		switch op {
 		case "find":
-			l, err := sys.card.FindAddressBooks(ctx, "/u/c/")
+			l, err := sys.card.FindAddressBooks(ctx, sys.base+"/u/c/")
 			var ps []string
 			for _, x := range l {
 				ps = append(ps, x.Path+"="+x.Name)
@@ -631,14 +743,14 @@ func (sys *sharedSystem) stateOf(tid int) string {
 			}
 		}
 	case "caldav":
-		pre := fmt.Sprintf("/u/c/k%d/", tid)
+		pre := fmt.Sprintf("%s/u/c/k%d/", sys.base, tid)
 		for _, o := range sys.calB.Objects {
 			if strings.HasPrefix(o.Path, pre) {
 				l = append(l, calObjs([]caldav.CalendarObject{o}))
 			}
 		}
 	case "carddav":
-		pre := fmt.Sprintf("/u/c/k%d/", tid)
+		pre := fmt.Sprintf("%s/u/c/k%d/", sys.base, tid)
 		for _, o := range sys.cardB.Objects {
 			if strings.HasPrefix(o.Path, pre) {
 				l = append(l, cardObjs([]carddav.AddressObject{o}))
@@ -650,9 +762,10 @@ func (sys *sharedSystem) stateOf(tid int) string {
 }
 
 type concObs struct {
-	Logs   [][]string
-	States []string
-	Panic  string
+	Logs            [][]string
+	States          []string
+	Panic           string
+	Config0, Config string
 }
 
 // solo runs each script alone on a fresh instance (the reference).
@@ -699,6 +812,9 @@ func runConc(t *testing.T, h concHarness, prefix []int) (s *sched.Sched, obs *co
 			for i := range h.Scripts {
 				obs.States[i] = sys.stateOf(i + 1)
 			}
+			if sys.cfg != nil {
+				obs.Config0, obs.Config = sys.cfg0, sys.cfg()
+			}
 		})
 	}()
 	return s, obs
@@ -722,6 +838,10 @@ func judgeConc(s *sched.Sched, o, ref *concObs) string {
 			return "leaked-goroutine: " + o.Panic
 		}
 		return "panic: " + o.Panic
+	}
+	if o.Config != o.Config0 {
+		// a handler that writes its own fields while serving races with every concurrent request
+		return fmt.Sprintf("handler-changed-its-own-configuration-while-serving: %s -> %s", o.Config0, o.Config)
 	}
 	for i := range ref.Logs {
 		if fmt.Sprint(o.Logs[i]) != fmt.Sprint(ref.Logs[i]) {
@@ -754,6 +874,17 @@ func concHarnesses(full bool) []concHarness {
 	for _, kind := range []string{"caldav", "carddav"} {
 		for _, a := range davOps {
 			for _, b := range davOps {
+				out = append(out, concHarness{Kind: kind, Scripts: []opScript{{a}, {b}}})
+			}
+		}
+	}
+	// handlers mounted under a prefix configured with a trailing slash
+	for _, kind := range []string{"caldav-prefix", "carddav-prefix"} {
+		for ai, a := range davOps {
+			for bi, b := range davOps {
+				if !full && (ai+bi)%3 != 0 {
+					continue
+				}
 				out = append(out, concHarness{Kind: kind, Scripts: []opScript{{a}, {b}}})
 			}
 		}
@@ -808,7 +939,11 @@ func classify(outcome string) string {
 
 func TestC18(t *testing.T) {
 	if f := os.Getenv("C18_SEQ_CHILD"); f != "" {
-		b, _ := json.Marshal(checks.SeqSoloObservations(true))
+		m := checks.SeqSoloObservations(true)
+		for k, v := range clientSoloObservations(true) {
+			m[k] = v
+		}
+		b, _ := json.Marshal(m)
 		if err := os.WriteFile(f, b, 0o644); err != nil {
 			t.Fatal(err)
 		}
@@ -1032,6 +1167,11 @@ func mergeShards(t *testing.T, r *engine.Run, files []string) {
 		var rr map[string]interface{}
 		if jsonUnmarshal(b, &rr) == nil {
 			r.Extra["race_pass"] = rr
+			if hung, _ := rr["did_not_terminate"].(bool); hung {
+				s := r.Shard()
+				s.Violate(engine.Violation{Sig: "C18/free-running-pass-did-not-terminate", Clause: "termination", Index: 1<<60 + 1, Kind: "C18-race", Case: rr, Expected: "every operation of the free-running pass returns", Observed: fmt.Sprintf("the pass was still running after %v s (it takes seconds to minutes)", rr["watchdog_seconds"])})
+				r.Merge(s)
+			}
 			if n, _ := rr["races"].(float64); n > 0 {
 				s := r.Shard()
 				s.Violate(engine.Violation{Sig: "C18/data-race", Clause: "data-race", Index: 1 << 60, Kind: "C18-race", Case: rr, Expected: "no data race on library state", Observed: fmt.Sprint(rr["first_report"])})
@@ -1039,27 +1179,36 @@ func mergeShards(t *testing.T, r *engine.Run, files []string) {
 			}
 		}
 	}
-	// part D: sequential histories (degenerate schedules), single process
-	checks.SeqHistories(r, tier() != "thorough", func() (map[string]string, error) {
-		// the reverse-order reference pass runs in a fresh process of this same binary
-		cmd := exec.Command(os.Args[0], "-test.run", "^TestC18$", "-test.timeout", "0")
-		f, err := os.CreateTemp("", "c18rev")
-		if err != nil {
-			return nil, err
+	// part D: sequential histories (degenerate schedules), single process.
+	// Reference observations are taken in forward order here and in reverse order in a fresh process
+	// of this same binary: first for the client operations, then (inside SeqHistories) for the servers.
+	cfwd := clientSoloObservations(false)
+	rev, revErr := reverseObservations()
+	if revErr != nil {
+		fmt.Fprintf(os.Stderr, "C18: reverse-order reference pass failed: %v\n", revErr)
+		os.Exit(2)
+	}
+	{
+		sh := r.Shard()
+		keys := make([]string, 0, len(cfwd))
+		for k := range cfwd {
+			keys = append(keys, k)
 		}
-		f.Close()
-		defer os.Remove(f.Name())
-		cmd.Env = append(os.Environ(), "C18_SEQ_CHILD="+f.Name(), "C18_MERGE=", "C18_SHARD=", "C18_REPLAY=")
-		if out, err := cmd.CombinedOutput(); err != nil {
-			return nil, fmt.Errorf("%v: %s", err, out)
+		sort.Strings(keys)
+		for _, k := range keys {
+			sh.Transition()
+			sh.Transition()
+			sh.Clause("process history: a brand-new client and handler perform an operation the same whatever the process did before")
+			if rev[k] != cfwd[k] {
+				parts := strings.SplitN(strings.TrimPrefix(k, "client:"), "/", 2)
+				sh.Violate(engine.Violation{Sig: fmt.Sprintf("C18/process-state/client/%s/%s", parts[0], parts[1]), Clause: "process-state", Index: 1<<58 + int64(len(k)), Kind: "C18-client-seq",
+					Case: map[string]interface{}{"kind": parts[0], "operation": parts[1]}, Expected: "forward order: " + cfwd[k], Observed: "reverse order in a fresh process: " + rev[k]})
+			}
 		}
-		b, err := os.ReadFile(f.Name())
-		if err != nil {
-			return nil, err
-		}
-		m := map[string]string{}
-		return m, jsonUnmarshal(b, &m)
-	})
+		r.Extra["client_process_state_operations"] = len(keys)
+		r.Merge(sh)
+	}
+	checks.SeqHistories(r, tier() != "thorough", func() (map[string]string, error) { return rev, nil })
 	code := r.Finish()
 	if f := os.Getenv("C18_EXIT_FILE"); f != "" {
 		os.WriteFile(f, []byte(fmt.Sprint(code)), 0o644)
@@ -1081,6 +1230,29 @@ func replay(t *testing.T, file string) {
 		t.Fatal(err)
 	}
 	var out string
+	var top struct {
+		Kind string `json:"kind"`
+		Case struct {
+			Kind      string `json:"kind"`
+			Operation string `json:"operation"`
+		} `json:"case"`
+	}
+	if jsonUnmarshal(b, &top) == nil && top.Kind == "C18-client-seq" {
+		fwd := clientSoloObservations(false)
+		rev, err := reverseObservations()
+		if err != nil {
+			t.Fatal(err)
+		}
+		k := "client:" + top.Case.Kind + "/" + top.Case.Operation
+		fmt.Printf("forward order: %s\nreverse order in a fresh process: %s\n", fwd[k], rev[k])
+		if fwd[k] == rev[k] {
+			fmt.Println("RESULT: property holds on this case now")
+			return
+		}
+		fmt.Printf("VIOLATION property=C18 replay=%s\n", file)
+		t.Fail()
+		return
+	}
 	if v.Case.Part == "" {
 		var sc struct {
 			Case struct {
